@@ -158,3 +158,11 @@ Proof.
   left. exists 0, (WEP [(167772160, Some 24)] [] 1%nat None), (167772160, Some 24).
   repeat split; try reflexivity. left. reflexivity.
 Qed.
+
+(* Non-vacuity of the hypotheses of c41_set_exact / c41_no_bypass: the example history is well-formed and has an execution. *)
+Example c41_exec_example :
+  exists st dp, exec V4 init None ex_history st dp /\ wf_history V4 ex_history = true /\ s_dirty st = false.
+Proof.
+  destruct (exec_deterministic V4 ex_history init None) as [dp H].
+  exists (state_after V4 init ex_history), dp. split; [exact H|]. split; vm_compute; reflexivity.
+Qed.
